@@ -12,7 +12,7 @@
 (* index in `bad`, drops the current Parser session (until the next Reset) *)
 (* and goes on, so one rejected event does not hide the rest of the file.  *)
 (***************************************************************************)
-EXTENDS BklEval, Json, SequencesExt
+EXTENDS BklProps, Json, SequencesExt
 
 TraceFile == "trace.ndjson"
 Trace     == ndJsonDeserialize(TraceFile)
@@ -44,6 +44,28 @@ Verdict(j) ==
 
 (* comparison of a specification result r = [ok, v | err] with an observed *)
 (* evaluation event e = [ok, outs]                                         *)
+(* optional fields of an evaluation event:                                 *)
+(*   expect   - the outputs demanded by the property's law, computed by an *)
+(*              independent oracle of the driver (hand substitution, hand  *)
+(*              assembled string, escaped original ...)                    *)
+(*   expecterr- present when the law demands a failure                     *)
+(*   laws     - names of declarative laws to evaluate on the OBSERVED      *)
+(*              outputs: "nomarker" (C07), "output" (C11)                  *)
+LawsOf(e) == IF "laws" \in DOMAIN e THEN {e.laws[i] : i \in DOMAIN e.laws} ELSE {}
+ExpectedOutputs(ds) ==
+  FoldRes(LAMBDA acc, d : Ok(acc \o Expected11(IF "data" \in DOMAIN d THEN d.data ELSE d)), <<>>, ds).v
+JudgeLaws(r, e, ds) ==
+  IF "expecterr" \in DOMAIN e /\ (r.ok \/ e.ok) THEN "the law demands an error"
+  ELSE IF "expect" \in DOMAIN e /\ ~(r.ok /\ r.v = e.expect)
+       THEN "the specification does not satisfy the law"
+  ELSE IF "expect" \in DOMAIN e /\ ~(e.ok /\ e.outs = e.expect)
+       THEN "the code does not satisfy the law"
+  ELSE IF "nomarker" \in LawsOf(e) /\ e.ok /\ \E i \in DOMAIN e.outs : ~NoMarker(e.outs[i])
+       THEN "unresolved marker in the output"
+  ELSE IF "output" \in LawsOf(e) /\ ~(e.ok /\ SameBag(e.outs, ExpectedOutputs(ds)))
+       THEN "outputs are not exactly the marked subtrees"
+  ELSE ""
+
 JudgeEval(r, e) ==
   IF ~r.ok /\ r.err = "undef" THEN "undef"
   ELSE IF r.ok /\ ~e.ok THEN "spec evaluates, code failed"
@@ -96,7 +118,9 @@ TDocuments ==
 TOutput ==
   /\ IsEvent("Output") /\ live = "ok" /\ Advance /\ Keep
   /\ LET e == Ev
-         j == JudgeEval(EvalAllC(docs, EnvOf(e), CodecOf(e)), e)
+         r == EvalAllC(docs, EnvOf(e), CodecOf(e))
+         j0 == JudgeEval(r, e)
+         j == IF j0 = "" THEN JudgeLaws(r, e, docs) ELSE j0
          f == IF "format" \in DOMAIN e THEN e.format ELSE ""
          stale == e.ok /\ ShaOf(e) # "" /\ f \in DOMAIN shas /\ shas[f] # ShaOf(e)
      IN /\ Verdict(IF j = "" /\ stale THEN "two output calls on the same state returned different bytes" ELSE j)
@@ -107,7 +131,9 @@ TOutput ==
 (* stateless evaluation of a document stream *)
 TEval ==
   /\ IsEvent("Eval") /\ Advance /\ Keep /\ UNCHANGED shas
-  /\ Verdict(JudgeEval(EvalAllC(Ev.docs, EnvOf(Ev), CodecOf(Ev)), Ev))
+  /\ LET r == EvalAllC(Ev.docs, EnvOf(Ev), CodecOf(Ev))
+         j == JudgeEval(r, Ev)
+     IN Verdict(IF j = "" THEN JudgeLaws(r, Ev, Ev.docs) ELSE j)
 
 TDone ==
   /\ l = Len(Trace) + 1
